@@ -39,6 +39,14 @@ def rec(rt, dt, payload=b""):
     n = len(payload) + 4
     return bytes([n >> 8, n & 255, rt, dt]) + payload
 
+# one well-formed record per record type of the GDSII table: (record type, data type, payload)
+WELLFORMED = ([(rt, 0, b"") for rt in (0x04, 0x07, 0x08, 0x09, 0x0A, 0x0B, 0x0C, 0x11, 0x14, 0x15, 0x2D, 0x38)] +
+              [(0x00, 2, b"\0\3"), (0x01, 2, bytes(24)), (0x05, 2, bytes(24)), (0x13, 2, b"\0\2\0\3"), (0x3B, 2, bytes(6))] +
+              [(rt, 2, b"\0\1") for rt in (0x0D, 0x0E, 0x16, 0x21, 0x22, 0x2A, 0x2B, 0x2E, 0x36, 0x39, 0x29, 0x1E, 0x32, 0x33)] +
+              [(rt, 1, b"\0\1") for rt in (0x17, 0x1A, 0x26)] +
+              [(rt, 3, b"\0\0\0\5") for rt in (0x0F, 0x2F, 0x30, 0x31)] + [(0x10, 3, bytes(8)), (0x10, 3, bytes(40))] +
+              [(0x03, 5, bytes.fromhex("3e4189374bc6a7f03944b82fa09b5a54")), (0x1B, 5, bytes.fromhex("4110000000000000")), (0x1C, 5, bytes.fromhex("425a000000000000"))] +
+              [(rt, 6, b"ab") for rt in (0x02, 0x06, 0x12, 0x19, 0x1F, 0x20, 0x23, 0x2C, 0x37, 0x3A, 0x18, 0x1D, 0x27, 0x28)])
 PROLOG = rec(0, 2, b"\0\3") + rec(1, 2, bytes(24)) + rec(2, 6, b"ab") + rec(3, 5, bytes.fromhex("3e4189374bc6a7f03944b82fa09b5a54"))
 def in_lib(*recs):
     return PROLOG + b"".join(recs) + rec(4, 0)
@@ -157,6 +165,17 @@ def gen_cases(chk):
                 if quick and (rt + dt + pi + chk.seed) % 5 != 0:
                     continue
                 add("short_rec", in_text(rec(rt, dt, pl)) if rt % 2 else in_lib(rec(rt, dt, pl)))
+    # 3b. a WELL-FORMED record of every record type (payload as its (type, datatype, length) arm wants it) dropped into each
+    # context, alone and followed by the records that usually follow it: the reader must come back with a library or an
+    # error on each (a record it skips must not make it wait for a companion that never comes)
+    for rt, dt, pl in WELLFORMED:
+        for ctx, nm in ctxs:
+            add("wellformed_in_" + nm, ctx(rec(rt, dt, pl)))
+        add("wellformed_in_lib", in_lib(rec(rt, dt, pl), rec(rt, dt, pl)))
+        add("wellformed_before_lib", rec(0, 2, b"\0\3") + rec(1, 2, bytes(24)) + rec(rt, dt, pl) + rec(2, 6, b"ab") + rec(3, 5, bytes(16)) + rec(4, 0))
+    add("wellformed_in_lib", in_lib(rec(0x36, 2, b"\0\1"), rec(0x37, 6, b"m1"), rec(0x37, 6, b"m2"), rec(0x38, 0)))
+    add("wellformed_in_lib", in_lib(rec(0x36, 2, b"\0\1"), rec(0x37, 6, b"m1")))
+    add("wellformed_in_lib", in_lib(rec(0x37, 6, b"m1"), rec(0x38, 0)))
     # 4. reals: special eight-byte words in UNITS / MAG / ANGLE (incl. the known class words)
     for w in REAL_WORDS:
         wb = w.to_bytes(8, "big")
